@@ -130,8 +130,30 @@ func GenBatch(t *rapid.T, sc *Scenario, maxDocs int) Batch {
 		if nf > 0 && rapid.IntRange(0, 15).Draw(t, "manyInstances") == 0 {
 			// a multi-valued field: 9..20 more instances of the first field, each stored
 			f0 := b[di].Fields[0]
-			for k := rapid.IntRange(9, 20).Draw(t, "nInstances"); k > 0; k-- {
-				b[di].Fields = append(b[di].Fields, Field{Name: f0.Name, DV: f0.DV, Store: true, Value: fmt.Sprintf("inst-%d", k), Len: 1, Terms: []Term{{T: "m", Freq: 1}}})
+			// (9..60 instances with values of 1..150 bytes: the record's meta section - field id, offset and
+			// length of every value - ends up around 128 / 256 bytes, the width boundaries of its length prefix)
+			nInst := rapid.IntRange(9, 20).Draw(t, "nInstances")
+			if rapid.Bool().Draw(t, "manyMoreInstances") {
+				nInst = rapid.IntRange(25, 60).Draw(t, "nInstancesMany")
+			}
+			if lens := metaExactLens(rapid.SampledFrom([]int{0, 0, 128, 256, 384}).Draw(t, "metaExact")); lens != nil && len(b[di].Fields) == 1 && !b[di].Fields[0].Store {
+				// the document's stored values are exactly these instances: a meta section of exactly 128 / 256 / 384 bytes
+				for k, l := range lens {
+					b[di].Fields = append(b[di].Fields, Field{Name: f0.Name, DV: f0.DV, Store: true, Value: strings.Repeat(fmt.Sprintf("%d", k%10), l), Len: 1, Terms: []Term{{T: "m", Freq: 1}}})
+				}
+				nInst = 0
+			}
+			for k := nInst; k > 0; k-- {
+				v := fmt.Sprintf("inst-%d", k)
+				switch rapid.IntRange(0, 5).Draw(t, "instValueKind") {
+				case 0:
+					v = fmt.Sprintf("%d", k%10)
+				case 1:
+					v = fmt.Sprintf("%d-%s", k, strings.Repeat("v", 147))
+				case 2:
+					v = fmt.Sprintf("%02d-value", k)
+				}
+				b[di].Fields = append(b[di].Fields, Field{Name: f0.Name, DV: f0.DV, Store: true, Value: v, Len: 1, Terms: []Term{{T: "m", Freq: 1}}})
 			}
 		}
 	}
@@ -192,6 +214,54 @@ func genField(t *rapid.T, sc *Scenario, allowed []string) Field {
 		f.NoIndex = rapid.Bool().Draw(t, "noIndex") // a stored-only instance
 	}
 	return f
+}
+
+func uvarintLen(x int) int {
+	n := 1
+	for x >= 128 {
+		x >>= 7
+		n++
+	}
+	return n
+}
+
+// metaExactLens returns value lengths for the stored instances of ONE field
+// (field id < 128) of a document such that the record's meta section - per
+// value: field id, start offset, length, each a uvarint - is exactly target
+// bytes long (nil if target is 0 or no combination is found).
+func metaExactLens(target int) []int {
+	if target <= 0 {
+		return nil
+	}
+	for nLong := 0; nLong <= 3; nLong++ {
+		for nShort := 0; nShort <= 140; nShort++ {
+			for _, longFirst := range []bool{true, false} {
+				var lens []int
+				if longFirst {
+					for i := 0; i < nLong; i++ {
+						lens = append(lens, 150)
+					}
+				}
+				for i := 0; i < nShort; i++ {
+					lens = append(lens, 1)
+				}
+				if !longFirst {
+					for i := 0; i < nLong; i++ {
+						lens = append(lens, 150)
+					}
+				}
+				meta, curr := 0, 0
+				for _, l := range lens {
+					meta += 1 + uvarintLen(curr) + uvarintLen(l)
+					curr += l
+				}
+				if meta == target {
+					return lens
+				}
+			}
+		}
+	}
+	return nil
 }
 
 // GenBatchManyFields draws a small batch over 62..300 field names (around 64, around 128, beyond), so that
@@ -606,6 +676,7 @@ type CountsParams struct {
 	HugeAt     []int   // documents whose field "a" also lists term "big"
 	HugeFreq   []int64 // with these frequencies
 	OtherField bool    // the remaining documents carry field "b"
+	ManyLocs   int     // >0: term "many" of field "a" has this many locations in document 0 (spread over two instances of the field) and one location in the last document: location counts around and beyond 2^16
 	NameLen    int     // >1: the field is named "a" + padding up to this length (name lengths around 128: the width boundary of the name-length varint, and of any fixed-size window over a field record)
 }
 
@@ -620,6 +691,7 @@ func GenCounts(t *rapid.T) CountsParams {
 		p.HugeFreq = append(p.HugeFreq, rapid.SampledFrom(hugeFreqs).Draw(t, "hugeFreq"))
 	}
 	p.OtherField = rapid.Bool().Draw(t, "otherField")
+	p.ManyLocs = rapid.SampledFrom([]int{0, 0, 0, 255, 256, 65535, 65536, 70000}).Draw(t, "manyLocs")
 	if rapid.Bool().Draw(t, "longName") {
 		p.NameLen = rapid.SampledFrom([]int{100, 110, 113, 115, 118, 120, 121, 122, 123, 124, 125, 126, 127, 128, 129, 200, 255, 256, 257, 16383, 16384, 65535, 65536, 70005}).Draw(t, "nameLen")
 	}
@@ -655,6 +727,18 @@ func (p CountsParams) Batch(sc *Scenario) Batch {
 			}
 		}
 		b[i].Fields = append(b[i].Fields, f)
+	}
+	if p.ManyLocs > 0 {
+		mk := func(n, base int) Field {
+			tm := Term{T: "many", Freq: n, Locs: make([]Loc, n)}
+			for j := range tm.Locs {
+				tm.Locs[j] = Loc{Pos: base + j, Start: j % 100, End: j%100 + 1}
+			}
+			return Field{Name: p.FieldName(), Len: n, DV: sc.Schema["a"] == dvAlways, Terms: []Term{tm}}
+		}
+		half := p.ManyLocs / 2
+		b[0].Fields = append(b[0].Fields, mk(half, 0), mk(p.ManyLocs-half, half))
+		b[p.N-1].Fields = append(b[p.N-1].Fields, mk(1, 7))
 	}
 	return b
 }
